@@ -5,7 +5,7 @@ use crate::harness::{scenario_seed, Outcome, Property, Tier};
 use crate::logparse::parse_blocks;
 use crate::prng::Rng;
 use crate::proto::hex;
-use crate::rundrv::{drive_run, Behav, OutStep, RunOpts, RunScript, RunTrace, Strategy};
+use crate::rundrv::{drive_run_l, Behav, OutStep, RunOpts, RunScript, RunTrace, Strategy};
 use crate::runworld::default_hang_ms;
 use crate::world::{bin_dir, read_zst, sha256_hex, CmdFile, TargetSpec, World, WorldSpec};
 use serde::{Deserialize, Serialize};
@@ -19,6 +19,10 @@ pub struct LogWorldScenario {
     pub script: RunScript,
     /// log show filters to try afterwards: (targets, commands, stdout, stderr)
     pub shows: Vec<(Vec<String>, Vec<String>, bool, bool)>,
+    /// a healthy `log tail` listener attached for the whole run (its faults are C15's subject): the stored
+    /// bytes must be exactly the written ones whether or not somebody is listening
+    #[serde(default)]
+    pub listener: Option<crate::props_listen::ListenerCfg>,
 }
 
 pub fn gen_payload(rng: &mut Rng, tag: &str, allow_binary: bool, newline_terminated_only: bool) -> Vec<OutStep> {
@@ -110,7 +114,7 @@ fn gen_disk_stall(rng: &mut Rng) -> LogWorldScenario {
     script.workers = Some(4);
     script.rand_seed = Some(rng.next_u64() % 1_000_000);
     script.fs_write_stall = Some("stdout.zst:1:4000".into());
-    LogWorldScenario { spec, script, shows: vec![(vec![], vec![], true, true)] }
+    LogWorldScenario { spec, script, shows: vec![(vec![], vec![], true, true)], listener: None }
 }
 
 fn gen_log_world(seed: u64, idx: usize) -> LogWorldScenario {
@@ -205,7 +209,13 @@ fn gen_log_world(seed: u64, idx: usize) -> LogWorldScenario {
     let t0 = spec.targets[rng.below(spec.targets.len())].path.clone();
     shows.push((vec![t0], vec![], true, rng.chance(1, 2)));
     shows.push((vec![], vec![cmds[rng.below(cmds.len())].clone()], rng.chance(1, 2), true));
-    LogWorldScenario { spec, script, shows }
+    let listener = if rng.chance(1, 4) {
+        let both = rng.chance(1, 2);
+        Some(crate::props_listen::ListenerCfg { stdout: both || rng.chance(1, 2), stderr: true, targets: vec![], commands: vec![] })
+    } else {
+        None
+    };
+    LogWorldScenario { spec, script, shows, listener }
 }
 
 /// stored log files of the latest run, decoded independently: (file, target, command) -> bytes
@@ -291,8 +301,21 @@ fn exec_log_world(sc: &LogWorldScenario) -> Outcome {
     if let Some(s) = sc.script.rand_seed {
         w.set_rand_seed(s);
     }
-    let tr = drive_run(&mut w, "M1", &sc.script, Duration::from_millis(default_hang_ms()));
+    let l = match &sc.listener {
+        Some(c) => match crate::props_listen::start_listener(&mut w, c) {
+            Ok(l) => Some(l),
+            Err(e) => return Outcome::skip(&format!("listener: {}", e)),
+        },
+        None => None,
+    };
+    let tr = drive_run_l(&mut w, "M1", &sc.script, Duration::from_millis(default_hang_ms()), l);
+    if let Some(l) = l {
+        let _ = crate::props_listen::finish_listener(&mut w, l);
+    }
     let mut out = Outcome::default();
+    if l.is_some() {
+        out.probe("e2e_run_with_listener_attached", 1);
+    }
     out.trace = tr.log.clone();
     out.steps = tr.steps as u64;
     let probes = w.ctl.as_mut().map(|c| c.take_probes()).unwrap_or_default();
@@ -485,6 +508,11 @@ impl Property for C08 {
         let mut outv = vec![];
         if v["engine"] == "world" {
             if let Ok(sc) = serde_json::from_value::<LogWorldScenario>(v["scenario"].clone()) {
+                if sc.listener.is_some() {
+                    let mut s = sc.clone();
+                    s.listener = None;
+                    outv.push(json!({"engine": "world", "scenario": serde_json::to_value(s).unwrap()}));
+                }
                 for i in (0..sc.spec.targets.len()).rev() {
                     if sc.spec.targets.len() > 1 {
                         let mut s = sc.clone();
